@@ -16,6 +16,13 @@ func (k Keeper) setSlashingInfo(sdkCtx sdk.Context, val stakingtypes.Validator) 
 	}
 
 	ctx := sdk.UnwrapSDKContext(sdkCtx)
+
+	// The counter below starts at zero, so the missed-block bitmap it counts must start empty too: a consensus key that was
+	// in the set before (a removed validator applying again) can have bits left from the votes counted after its removal.
+	if err := k.slashKeeper.DeleteMissedBlockBitmap(ctx, sdk.ConsAddress(cons)); err != nil {
+		return err
+	}
+
 	return k.slashKeeper.SetValidatorSigningInfo(ctx, sdk.ConsAddress(cons), slashingtypes.ValidatorSigningInfo{
 		Address:             sdk.ConsAddress(cons).String(),
 		StartHeight:         sdkCtx.BlockHeight(),
